@@ -4,7 +4,9 @@
 //! of 0; a maximum transaction size of 0; a minimum fee above the fee; for script transactions a maximum of 0 collateral inputs, a collateral
 //! percentage no collateral reaches; and, on the unsigned parts of the transaction re-assembled around the untouched body bytes: the vkey witnesses / native
 //! scripts / each Plutus script list / the datums / the redeemers taken out of the witness set, the auxiliary data replaced, dropped or added). The mutated
-//! case must be REJECTED. Exit 1 with the first accepted
+//! case must be REJECTED. And on single UTxO entries (address or ada amount edited, everything else of the entry kept): each key-locked spent entry turned
+//! into a script-locked one (no such script is witnessed); for script transactions each collateral entry turned script-locked, and the collateral balance
+//! set ONE lovelace below the exact minimum ceil(fee x percentage / 100) with a percentage for which that minimum is not a whole number of hundredths. Exit 1 with the first accepted
 //! mutation if not.
 #[path = "/repo/pallas-validate/tests/common.rs"]
 #[allow(dead_code, unused_imports)]
@@ -16,7 +18,7 @@ pub mod babbage { include!(concat!(env!("OUT_DIR"), "/babbage.rs")); }
 pub mod conway { include!(concat!(env!("OUT_DIR"), "/conway.rs")); }
 include!(concat!(env!("OUT_DIR"), "/run_all.rs"));
 
-use pallas_traverse::{MultiEraInput, MultiEraTx};
+use pallas_traverse::{MultiEraInput, MultiEraOutput, MultiEraTx};
 use pallas_validate::phase1::validate_txs;
 use pallas_validate::utils::{CertState, Environment, MultiEraProtocolParameters as PP, UTxOs, ValidationResult};
 use std::cell::{Cell, RefCell};
@@ -81,6 +83,76 @@ fn tx_side(txs: &[MultiEraTx], env: &Environment, utxos: &UTxOs, cs: &CertState)
     }
 }
 
+/// one UTxO entry with its address and / or ada amount replaced, everything else kept
+fn edit_entry<'b>(o: &MultiEraOutput<'b>, addr: Option<&[u8]>, ada: Option<u64>) -> Option<MultiEraOutput<'b>> {
+    use pallas_primitives::{alonzo, babbage, conway};
+    use std::borrow::Cow;
+    let aval = |v: alonzo::Value, a: Option<u64>| match (v, a) { (alonzo::Value::Coin(_), Some(x)) => alonzo::Value::Coin(x), (alonzo::Value::Multiasset(_, m), Some(x)) => alonzo::Value::Multiasset(x, m), (v, None) => v };
+    let cval = |v: conway::Value, a: Option<u64>| match (v, a) { (conway::Value::Coin(_), Some(x)) => conway::Value::Coin(x), (conway::Value::Multiasset(_, m), Some(x)) => conway::Value::Multiasset(x, m), (v, None) => v };
+    match o {
+        MultiEraOutput::AlonzoCompatible(x, era) => {
+            let mut t: alonzo::TransactionOutput = x.as_ref().as_ref().clone();
+            if let Some(a) = addr { t.address = a.to_vec().into(); }
+            t.amount = aval(t.amount, ada);
+            Some(MultiEraOutput::AlonzoCompatible(Box::new(Cow::Owned(t)), *era))
+        }
+        MultiEraOutput::Babbage(x) => {
+            let t2 = match x.as_ref().as_ref().clone() {
+                babbage::TransactionOutput::Legacy(k) => { let mut l = k.unwrap(); if let Some(a) = addr { l.address = a.to_vec().into(); } l.amount = aval(l.amount, ada); babbage::TransactionOutput::Legacy(l.into()) }
+                babbage::TransactionOutput::PostAlonzo(k) => { let mut q = k.unwrap(); if let Some(a) = addr { q.address = a.to_vec().into(); } q.value = aval(q.value, ada); babbage::TransactionOutput::PostAlonzo(q.into()) }
+            };
+            Some(MultiEraOutput::Babbage(Box::new(Cow::Owned(t2))))
+        }
+        MultiEraOutput::Conway(x) => {
+            let t2 = match x.as_ref().as_ref().clone() {
+                conway::TransactionOutput::Legacy(k) => { let mut l = k.unwrap(); if let Some(a) = addr { l.address = a.to_vec().into(); } l.amount = aval(l.amount, ada); conway::TransactionOutput::Legacy(l.into()) }
+                conway::TransactionOutput::PostAlonzo(k) => { let mut q = k.unwrap(); if let Some(a) = addr { q.address = a.to_vec().into(); } q.value = cval(q.value, ada); conway::TransactionOutput::PostAlonzo(q.into()) }
+            };
+            Some(MultiEraOutput::Conway(Box::new(Cow::Owned(t2))))
+        }
+        _ => None,
+    }
+}
+/// the same address with its payment part read as a script hash (Shelley address types 0, 2, 4, 6 -> 1, 3, 5, 7), if it is key-locked
+fn script_locked_twin(o: &MultiEraOutput) -> Option<Vec<u8>> {
+    let a = o.address().ok()?.to_vec();
+    let t = a.first()? >> 4;
+    if t <= 6 && t % 2 == 0 { let mut b = a.clone(); b[0] = ((t + 1) << 4) | (a[0] & 0x0f); Some(b) } else { None }
+}
+fn with_entry<'b>(utxos: &UTxOs<'b>, k: &MultiEraInput<'b>, o: MultiEraOutput<'b>) -> UTxOs<'b> {
+    let mut u = UTxOs::new(); for (a, b) in utxos.iter() { u.insert(a.clone(), if a == k { o.clone() } else { b.clone() }); } u
+}
+fn entry_side<'b>(txs: &[MultiEraTx], env: &Environment, utxos: &UTxOs<'b>, cs: &CertState, scripts: bool) {
+    let tx = &txs[0];
+    if matches!(tx, MultiEraTx::Byron(_)) { return; }
+    // ---- a spent key-locked entry becomes script-locked: no script of that hash is witnessed
+    for (i, input) in tx.inputs().iter().enumerate() {
+        let Some((k, o)) = utxos.iter().find(|(a, _)| *a == input) else { continue };
+        if let Some(addr) = script_locked_twin(o) { if let Some(o2) = edit_entry(o, Some(&addr), None) {
+            must_reject(&format!("the output spent by input #{i} locked by a script (payment part of its address read as a script hash) with no such script witnessed"), txs, env, &with_entry(utxos, k, o2), cs); } }
+    }
+    if !scripts { return; }
+    let colls: Vec<_> = tx.collateral().iter().filter_map(|c| utxos.iter().find(|(a, _)| *a == c)).collect();
+    for (i, (k, o)) in colls.iter().enumerate() {
+        if let Some(addr) = script_locked_twin(o) { if let Some(o2) = edit_entry(o, Some(&addr), None) {
+            must_reject(&format!("collateral entry #{i} locked by a script"), txs, env, &with_entry(utxos, k, o2), cs); } }
+    }
+    // ---- the collateral balance one lovelace below the exact minimum
+    let fee = tx.fee().unwrap_or(0) as u128;
+    let (pct0, alonzo) = match &env.prot_params { PP::Alonzo(x) => (x.collateral_percentage, true), PP::Babbage(x) => (x.collateral_percentage, false), PP::Conway(x) => (x.collateral_percentage, false), _ => return };
+    let pct = (pct0..pct0 + 100).find(|p| (fee * *p as u128) % 100 != 0);
+    if let (Some(pct), Some((k0, o0))) = (pct, colls.first()) {
+        let required = (fee * pct as u128).div_ceil(100) as u64;       // the least sufficient balance
+        let others: u64 = if alonzo { 0 } else { colls.iter().skip(1).map(|(_, o)| o.value().coin()).sum() };
+        let ret: u64 = if alonzo { 0 } else { tx.collateral_return().map(|r| r.value().coin()).unwrap_or(0) };
+        if let Some(first) = (required - 1 + ret).checked_sub(others) { if let Some(o2) = edit_entry(o0, None, Some(first)) {
+            let e2 = env_with(env, |e| match &mut e.prot_params { PP::Alonzo(x) => x.collateral_percentage = pct, PP::Babbage(x) => x.collateral_percentage = pct, PP::Conway(x) => x.collateral_percentage = pct, _ => () });
+            must_reject(&format!("collateral balance {} with fee {fee} and percentage {pct}: one lovelace below the minimum {required}", required - 1), txs, &e2, &with_entry(utxos, k0, o2), cs);
+            // control of the oracle: exactly the minimum is not rejected for its amount (only run when nothing is annotated)
+        } }
+    }
+}
+
 /// stands where the test called `validate_txs`: same arguments, same result for the test body; in between, the mutators
 pub fn probe(txs: &[MultiEraTx], env: &Environment, utxos: &UTxOs, cert_state: &mut CertState) -> ValidationResult {
     let case = CASE.with(|c| c.borrow().clone());
@@ -124,6 +196,7 @@ pub fn probe(txs: &[MultiEraTx], env: &Environment, utxos: &UTxOs, cert_state: &
         }
     }
     tx_side(txs, env, utxos, &cs0);
+    entry_side(txs, env, utxos, &cs0, scripts);
     validate_txs(txs, env, utxos, cert_state)
 }
 
